@@ -181,14 +181,23 @@ Fixpoint dws (fuel : nat) (s sub : bytes) : bytes :=
   | S f =>
     match s with
     | [] => []
-    | _ => let npc := fst (bridge_res s) in
-           let sec := firstn npc s in
-           (if bytes_eqb sec sub then [] else sec) ++ dws f (skipn npc s) sub
+    | _ => if snd (bridge_res s) then
+             let npc := fst (bridge_res s) in
+             let sec := firstn npc s in
+             (if bytes_eqb sec sub then [] else sec) ++ dws f (skipn npc s) sub
+           else s
     end
   end.
 
 Lemma dws_nil fuel sub : dws fuel [] sub = [].
 Proof. destruct fuel; reflexivity. Qed.
+
+Lemma dws_cons f b r sub : dws (S f) (b :: r) sub =
+  if snd (bridge_res (b :: r)) then
+    (if bytes_eqb (firstn (fst (bridge_res (b :: r))) (b :: r)) sub then [] else firstn (fst (bridge_res (b :: r))) (b :: r))
+    ++ dws f (skipn (fst (bridge_res (b :: r))) (b :: r)) sub
+  else b :: r.
+Proof. reflexivity. Qed.
 
 Lemma walk_suffix sub fuel : forall script pc, (length script - pc <= fuel)%nat ->
   delete_walk fuel script sub pc = Ret (dws fuel (skipn pc script) sub).
@@ -202,13 +211,15 @@ Proof.
       { exfalso. assert (length (skipn pc script) = 0%nat) by (rewrite ES; reflexivity).
         rewrite skipn_length in H. lia. }
       destruct (getop_bridge b r) as [d Hd]. rewrite Hd. cbn [shift_res].
+      rewrite dws_cons.
+      destruct (snd (bridge_res (b :: r))); [|reflexivity].
       set (npc := fst (bridge_res (b :: r))).
       assert (Hpos : (1 <= npc)%nat) by apply bridge_npc_pos.
       rewrite IH by lia. cbn [bind].
       rewrite skipn_add, ES.
       assert (Hsec : slice pc (pc + npc) script = firstn npc (b :: r)).
       { unfold slice. rewrite ES. f_equal. lia. }
-      rewrite Hsec. cbn [dws]. fold npc.
+      rewrite Hsec.
       destruct (bytes_eqb (firstn npc (b :: r)) sub); reflexivity.
 Qed.
 
@@ -254,109 +265,36 @@ Qed.
 Lemma complete_nonempty p : complete_instruction p -> p <> [].
 Proof. intros [o H] ->. discriminate. Qed.
 
-Lemma dws_cons f b r sub : dws (S f) (b :: r) sub =
-  (if bytes_eqb (firstn (fst (bridge_res (b :: r))) (b :: r)) sub then [] else firstn (fst (bridge_res (b :: r))) (b :: r))
-  ++ dws f (skipn (fst (bridge_res (b :: r))) (b :: r)) sub.
-Proof. reflexivity. Qed.
-
-Lemma dws_fuel sub : forall f1 f2 s, (length s <= f1)%nat -> (length s <= f2)%nat -> dws f1 s sub = dws f2 s sub.
-Proof.
-  induction f1 as [|f1 IH]; intros f2 s H1 H2.
-  - destruct s; [|cbn in H1; lia]. now rewrite !dws_nil.
-  - destruct s as [|b r]; [now rewrite !dws_nil|].
-    destruct f2 as [|f2]; [cbn in H2; lia|].
-    cbn [dws]. f_equal. pose proof (bridge_npc_pos (b :: r)).
-    apply IH; rewrite skipn_length; cbn [length] in *; lia.
-Qed.
-
-Lemma undecodable_tail_length fuel : forall s, (length (undecodable_tail_fuel fuel s) <= length s)%nat.
-Proof.
-  induction fuel as [|f IH]; intros s; cbn [undecodable_tail_fuel]; [lia|].
-  destruct (core_get_op s) as [o len|adv]; [|lia].
-  etransitivity; [apply IH|]. rewrite skipn_length. lia.
-Qed.
-
-Lemma fad_general pat : complete_instruction pat -> forall fuel s, (length s <= fuel)%nat ->
-  exists G, fad_fuel fuel pat s = G ++ undecodable_tail_fuel fuel s
-         /\ dws fuel s pat = G ++ dws fuel (undecodable_tail_fuel fuel s) pat.
+(* pycoin's walk IS Core's FindAndDelete: for every script, every pattern that is one complete instruction *)
+Lemma dws_is_fad pat : complete_instruction pat -> forall fuel s, (length s <= fuel)%nat ->
+  dws fuel s pat = fad_fuel fuel pat s.
 Proof.
   intros [po Hpat] fuel. induction fuel as [|f IH]; intros s Hlen.
-  - destruct s; [|cbn in Hlen; lia]. exists []. split; reflexivity.
-  - cbn [fad_fuel undecodable_tail_fuel].
-    destruct (is_prefix pat s) eqn:EP.
-    + (* an occurrence of the pattern: it is the next instruction *)
-      pose proof (is_prefix_inv _ _ EP) as Hs.
-      assert (Hop : core_get_op s = GOk po (length pat)).
-      { rewrite Hs. now apply core_get_op_prefix. }
-      rewrite Hop.
-      assert (Hne : s <> []). { intros ->. destruct pat; [discriminate|]. discriminate. }
-      assert (Hpl : (1 <= length pat)%nat). { apply core_get_op_ok in Hpat. lia. }
-      destruct (IH (skipn (length pat) s)) as [G [HG1 HG2]]; [rewrite skipn_length; destruct s; [congruence|cbn [length] in *; lia]|].
-      exists G. split; [exact HG1|].
-      destruct s as [|b r]; [congruence|]. rewrite dws_cons.
-      unfold bridge_res. rewrite Hop. cbn [fst].
-      assert (Hsec : firstn (length pat) (b :: r) = pat).
-      { rewrite Hs at 1. apply firstn_app_exact. }
-      rewrite Hsec, bytes_eqb_refl. cbn [app]. rewrite HG2. f_equal.
-      apply dws_fuel.
-      * etransitivity; [apply undecodable_tail_length|]. rewrite skipn_length. cbn [length] in *. lia.
-      * etransitivity; [apply undecodable_tail_length|]. rewrite skipn_length. cbn [length] in *. lia.
-    + destruct (core_get_op s) as [o len|adv] eqn:Hop.
-      * pose proof (core_get_op_ok _ _ _ Hop) as [Hl [b [r [Hs _]]]].
-        destruct (IH (skipn len s)) as [G [HG1 HG2]]; [rewrite skipn_length; lia|].
-        exists (firstn len s ++ G). split; [now rewrite HG1, app_assoc|].
-        subst s. rewrite dws_cons. unfold bridge_res. rewrite Hop. cbn [fst].
+  - destruct s; [reflexivity|cbn in Hlen; lia].
+  - cbn [fad_fuel]. destruct s as [|b r].
+    + destruct pat as [|p0 pr]; [discriminate|]. reflexivity.
+    + rewrite dws_cons. unfold bridge_res.
+      destruct (is_prefix pat (b :: r)) eqn:EP.
+      * (* an occurrence of the pattern: it is the next instruction *)
+        pose proof (is_prefix_inv _ _ EP) as Hs.
+        assert (Hop : core_get_op (b :: r) = GOk po (length pat)) by (rewrite Hs; now apply core_get_op_prefix).
+        rewrite Hop. cbn [fst snd].
+        assert (Hsec : firstn (length pat) (b :: r) = pat) by (rewrite Hs at 1; apply firstn_app_exact).
+        rewrite Hsec, bytes_eqb_refl. cbn [app].
+        apply core_get_op_ok in Hop. apply IH. rewrite skipn_length. cbn [length] in *. lia.
+      * destruct (core_get_op (b :: r)) as [o len|adv] eqn:Hop; cbn [fst snd]; [|reflexivity].
+        pose proof (core_get_op_ok _ _ _ Hop) as [Hl _].
         destruct (bytes_eqb (firstn len (b :: r)) pat) eqn:EQ.
         { exfalso. apply bytes_eqb_eq in EQ.
           rewrite <- (firstn_skipn len (b :: r)), EQ, is_prefix_app in EP. discriminate. }
-        rewrite <- app_assoc. f_equal. rewrite HG2. f_equal.
-        apply dws_fuel.
-        -- etransitivity; [apply undecodable_tail_length|]. rewrite skipn_length. cbn [length] in *. lia.
-        -- etransitivity; [apply undecodable_tail_length|]. rewrite skipn_length. cbn [length] in *. lia.
-      * exists []. split; reflexivity.
+        f_equal. apply IH. rewrite skipn_length. cbn [length] in *. lia.
 Qed.
 
-(* the exact relation, for every script and every pattern that is one complete instruction *)
-Lemma find_and_delete_general pat s : complete_instruction pat ->
-  exists G w, core_find_and_delete pat s = G ++ undecodable_tail s
-           /\ delete_subscript (undecodable_tail s) pat = Ret w
-           /\ delete_subscript s pat = Ret (G ++ w).
-Proof.
-  intros Hc. destruct (fad_general pat Hc (length s) s (le_n _)) as [G [H1 H2]].
-  exists G, (dws (length (undecodable_tail s)) (undecodable_tail s) pat).
-  unfold core_find_and_delete, undecodable_tail in *.
-  destruct pat as [|p0 pr]; [exfalso; now apply (complete_nonempty [] Hc)|].
-  split; [exact H1|]. split; [apply delete_subscript_dws|].
-  rewrite delete_subscript_dws, H2. f_equal. f_equal.
-  apply dws_fuel; [apply undecodable_tail_length | lia].
-Qed.
-
-Lemma find_and_delete_iff pat s : complete_instruction pat ->
-  (delete_subscript s pat = Ret (core_find_and_delete pat s) <-> rewalk_excluded pat s = false).
-Proof.
-  intros Hc. destruct (find_and_delete_general pat s Hc) as [G [w [H1 [H2 H3]]]].
-  unfold rewalk_excluded. rewrite H2, H3, H1. split.
-  - intros H. injection H as H. apply app_inv_head in H. subst w. now rewrite bytes_eqb_refl.
-  - intros H. destruct (bytes_eqb w (undecodable_tail s)) eqn:E; [|discriminate].
-    apply bytes_eqb_eq in E. now subst w.
-Qed.
-
-(* decodable scripts have no tail *)
-Lemma decodable_tail_nil fuel : forall s, decodable_fuel fuel s = true -> undecodable_tail_fuel fuel s = [].
-Proof.
-  induction fuel as [|f IH]; intros s H.
-  - destruct s; [reflexivity|discriminate].
-  - cbn [undecodable_tail_fuel]. destruct s as [|b r]; [reflexivity|].
-    cbn [decodable_fuel] in H. destruct (core_get_op (b :: r)) as [o len|adv]; [|discriminate].
-    now apply IH.
-Qed.
-
-Lemma find_and_delete_decodable pat s : complete_instruction pat -> core_decodable s = true ->
+Lemma find_and_delete_eq pat s : complete_instruction pat ->
   delete_subscript s pat = Ret (core_find_and_delete pat s).
 Proof.
-  intros Hc Hd. apply find_and_delete_iff; [exact Hc|].
-  unfold rewalk_excluded, undecodable_tail. rewrite (decodable_tail_nil _ _ Hd).
-  reflexivity.
+  intros Hc. rewrite delete_subscript_dws, (dws_is_fad pat Hc _ _ (le_n _)).
+  unfold core_find_and_delete. destruct pat; [exfalso; now apply (complete_nonempty [] Hc)|reflexivity].
 Qed.
 
 (* ================================================================================================
@@ -408,29 +346,11 @@ Lemma codesep_complete : complete_instruction [n2b OP_CODESEPARATOR].
 Proof. exists OP_CODESEPARATOR. reflexivity. Qed.
 
 (* _delete_signature *)
-Lemma delete_signature_general script sig : N.of_nat (length sig) < 2 ^ 32 ->
-  exists G w, core_find_and_delete (core_push sig) script = G ++ undecodable_tail script
-           /\ delete_subscript (undecodable_tail script) (core_push sig) = Ret w
-           /\ delete_signature script sig = Ret (G ++ w).
-Proof.
-  intros Hlen. unfold delete_signature. rewrite plain_push_core_push by exact Hlen. cbn [bind].
-  apply find_and_delete_general. now apply core_push_complete.
-Qed.
-
-Lemma delete_signature_iff script sig : N.of_nat (length sig) < 2 ^ 32 ->
-  (delete_signature script sig = Ret (core_find_and_delete (core_push sig) script)
-   <-> rewalk_excluded (core_push sig) script = false).
-Proof.
-  intros Hlen. unfold delete_signature. rewrite plain_push_core_push by exact Hlen. cbn [bind].
-  apply find_and_delete_iff. now apply core_push_complete.
-Qed.
-
-Lemma delete_signature_decodable script sig : N.of_nat (length sig) < 2 ^ 32 ->
-  core_decodable script = true ->
+Lemma delete_signature_eq script sig : N.of_nat (length sig) < 2 ^ 32 ->
   delete_signature script sig = Ret (core_find_and_delete (core_push sig) script).
 Proof.
-  intros Hlen Hd. unfold delete_signature. rewrite plain_push_core_push by exact Hlen. cbn [bind].
-  apply find_and_delete_decodable; [now apply core_push_complete | exact Hd].
+  intros Hlen. unfold delete_signature. rewrite plain_push_core_push by exact Hlen. cbn [bind].
+  apply find_and_delete_eq. now apply core_push_complete.
 Qed.
 
 (* a blob of 2^32 bytes or more: size.to_bytes(4, "little") raises OverflowError *)
@@ -599,7 +519,8 @@ Qed.
 Lemma dws_length sub fuel : forall s, (length (dws fuel s sub) <= length s)%nat.
 Proof.
   induction fuel as [|f IH]; intros s; [cbn; lia|].
-  destruct s as [|b r]; [cbn; lia|]. rewrite dws_cons, app_length.
+  destruct s as [|b r]; [cbn; lia|]. rewrite dws_cons.
+  destruct (snd (bridge_res (b :: r))); [|lia]. rewrite app_length.
   specialize (IH (skipn (fst (bridge_res (b :: r))) (b :: r))). rewrite skipn_length in IH.
   assert (length (if bytes_eqb (firstn (fst (bridge_res (b :: r))) (b :: r)) sub then []
                   else firstn (fst (bridge_res (b :: r))) (b :: r)) <= Nat.min (fst (bridge_res (b :: r))) (length (b :: r)))%nat.
@@ -648,11 +569,10 @@ Hypothesis Hwf : tx_wf t.
 Hypothesis Hidx : (idx < length (tx_ins t))%nat.
 Hypothesis Hscr : N.of_nat (length script) < 2 ^ 64.
 Let script' := core_find_and_delete [n2b OP_CODESEPARATOR] script.
-Hypothesis Hdec : core_decodable script = true.
 
 Lemma script'_len : N.of_nat (length script') < 2 ^ 64.
 Proof.
-  pose proof (find_and_delete_decodable _ script codesep_complete Hdec) as E.
+  pose proof (find_and_delete_eq _ script codesep_complete) as E.
   rewrite delete_subscript_dws in E.
   assert (E2 : script' = dws (length script) script [n2b OP_CODESEPARATOR]) by (unfold script'; congruence).
   rewrite E2.
@@ -673,7 +593,7 @@ Qed.
 (* all inputs, no ANYONECANPAY *)
 Lemma inputs_all (blank : bool) : f_anyonecanpay ht = false -> blank = (f_single ht || f_none ht) ->
   stream_all stream_txin (map (pin blank script' idx) (enumerate_from 0 (tx_ins t)))
-  = Ret (flat_map (ser_input script (to_core t) idx ht) (seq 0 (length (tx_ins t)))).
+  = Ret (flat_map (ser_input (ser_script script') (to_core t) idx ht) (seq 0 (length (tx_ins t)))).
 Proof.
   intros Hacp Hb.
   rewrite (stream_all_pure stream_txin ser_txin_pure).
@@ -691,7 +611,7 @@ Proof.
   cbn [ti_hash ti_index ti_script ti_seq in_prevout op_hash op_n in_nSequence].
   rewrite <- app_assoc. f_equal. f_equal.
   rewrite <- Hb. destruct (j =? idx)%nat eqn:E; cbn [negb andb].
-  - rewrite andb_false_r. f_equal. rewrite ser_script_code_decodable by exact Hdec. reflexivity.
+  - rewrite andb_false_r. reflexivity.
   - rewrite andb_true_r. destruct blank; reflexivity.
 Qed.
 
@@ -699,7 +619,7 @@ Qed.
 Lemma inputs_acp (blank : bool) x : f_anyonecanpay ht = true -> nth_error (tx_ins t) idx = Some x ->
   nth_error (map (pin blank script' idx) (enumerate_from 0 (tx_ins t))) idx = Some (pin blank script' idx (idx, x))
   /\ stream_all stream_txin [pin blank script' idx (idx, x)]
-     = Ret (flat_map (ser_input script (to_core t) idx ht) (seq 0 1)).
+     = Ret (flat_map (ser_input (ser_script script') (to_core t) idx ht) (seq 0 1)).
 Proof.
   intros Hacp Hx. split.
   - rewrite nth_error_map, (enumerate_nth_error _ 0 idx x Hx). reflexivity.
@@ -709,8 +629,7 @@ Proof.
     unfold ser_txin_pure, pin, to_core_in, ser_outpoint.
     cbn [ti_hash ti_index ti_script ti_seq in_prevout op_hash op_n in_nSequence].
     rewrite Nat.eqb_refl. cbn [negb andb]. rewrite andb_false_r.
-    rewrite <- app_assoc. do 2 f_equal. f_equal.
-    rewrite ser_script_code_decodable by exact Hdec. reflexivity.
+    rewrite <- app_assoc. reflexivity.
 Qed.
 
 Lemma outs_wf_forall : Forall (fun o => stream_txout o = Ret (ser_txout (to_core_out o))) (tx_outs t).
@@ -758,7 +677,6 @@ Definition presig_of_core (c : core_sighash) : presig :=
 
 Lemma finish_eq t script idx ht (blank : bool) outs' nOut x :
   tx_wf t -> (idx < length (tx_ins t))%nat -> ht < 2 ^ 32 -> N.of_nat (length script) < 2 ^ 64 ->
-  core_decodable script = true ->
   blank = (f_single ht || f_none ht) ->
   stream_all stream_txout outs' = Ret (flat_map (ser_output (to_core t) idx ht) (seq 0 nOut)) ->
   length outs' = nOut -> N.of_nat nOut < 2 ^ 64 ->
@@ -769,9 +687,10 @@ Lemma finish_eq t script idx ht (blank : bool) outs' nOut x :
         else match nth_error L idx with Some x0 => Ret [x0] | None => Raise E_INDEX end)
        (fun txs_in => bind (tx_hash_preimage (tx_version t) txs_in outs' (tx_lock t) ht)
                            (fun p => Ret (PPreimage p)))
-  = Ret (PPreimage (ser_for_signature script (to_core t) idx ht ++ le32 ht)).
+  = Ret (PPreimage (ser_for_signature (ser_script (core_find_and_delete [n2b OP_CODESEPARATOR] script)) (to_core t) idx ht
+                    ++ le32 ht)).
 Proof.
-  intros Hwf Hidx Hht Hscr Hdec Hb Houts Hlen HnOut HnOutEq Hx L.
+  intros Hwf Hidx Hht Hscr Hb Houts Hlen HnOut HnOutEq Hx L.
   pose proof Hwf as (Hv & Hl & _ & _ & Hni & _).
   unfold ser_for_signature. rewrite <- HnOutEq.
   assert (Ev : ctx_nVersion (to_core t) = tx_version t) by reflexivity.
@@ -784,14 +703,14 @@ Proof.
     rewrite write_le4 by exact Hv. cbn [bind].
     unfold L. rewrite map_length, enumerate_from_length.
     rewrite stream_varint_compact by exact Hni. cbn [bind].
-    rewrite (inputs_all t script idx ht Hwf Hidx Hscr Hdec blank Hacp Hb). cbn [bind].
+    rewrite (inputs_all t script idx ht Hwf Hidx Hscr blank Hacp Hb). cbn [bind].
     rewrite Hlen, stream_varint_compact by exact HnOut. cbn [bind].
     rewrite Houts. cbn [bind].
     rewrite write_le4 by exact Hl. rewrite write_le4 by exact Hht. cbn [bind].
     repeat rewrite <- app_assoc. reflexivity.
   - assert (Hacp : f_anyonecanpay ht = true) by (unfold f_anyonecanpay; now rewrite EA).
     rewrite Hacp.
-    destruct (inputs_acp t script idx ht Hwf Hidx Hscr Hdec blank x Hacp Hx) as [Hn Hs].
+    destruct (inputs_acp t script idx ht Hwf Hidx Hscr blank x Hacp Hx) as [Hn Hs].
     unfold L. rewrite Hn. cbn [bind]. unfold tx_hash_preimage.
     rewrite write_le4 by exact Hv. cbn [bind length].
     rewrite stream_varint_compact by (vm_compute; reflexivity). cbn [bind].
@@ -807,16 +726,15 @@ Proof. unfold f_none, f_single, SIGHASH_NONE, SIGHASH_SINGLE. lia. Qed.
 
 Lemma legacy_presig_eq t script idx ht :
   tx_wf t -> (idx < length (tx_ins t))%nat -> ht < 2 ^ 32 -> N.of_nat (length script) < 2 ^ 64 ->
-  core_decodable script = true ->
-  legacy_presig t script idx ht = Ret (presig_of_core (core_signature_hash_legacy script (to_core t) idx ht)).
+  legacy_presig t script idx ht = Ret (presig_of_core (core_signature_hash_old script (to_core t) idx ht)).
 Proof.
-  intros Hwf Hidx Hht Hscr Hdec.
+  intros Hwf Hidx Hht Hscr.
   pose proof Hwf as (_ & _ & _ & _ & _ & Hno).
   unfold legacy_presig.
-  rewrite g_codesep, (find_and_delete_decodable _ script codesep_complete Hdec). cbn [bind].
+  rewrite g_codesep, (find_and_delete_eq _ script codesep_complete). cbn [bind].
   rewrite ins0_eq.
   destruct g_legacy_masks as [-> ->]. rewrite g_none, g_single, g_acp, g_single_value.
-  unfold core_signature_hash_legacy.
+  unfold core_signature_hash_old, signature_hash_with.
   assert (Elen : length (ctx_vin (to_core t)) = length (tx_ins t)) by (unfold to_core; cbn [ctx_vin]; apply map_length).
   assert (Eout : length (ctx_vout (to_core t)) = length (tx_outs t)) by (unfold to_core; cbn [ctx_vout]; apply map_length).
   rewrite Elen, Eout.
@@ -988,24 +906,24 @@ Hypothesis Hidx : (idx < length (tx_ins t))%nat.
 Hypothesis Hht : ht < 2 ^ 32.
 Hypothesis Hscr : N.of_nat (length script) < 2 ^ 64.
 
-Lemma legacy_digest_btc c : c = BTC \/ c = LTC -> core_decodable script = true ->
+Lemma legacy_digest_btc c : c = BTC \/ c = LTC ->
   signature_hash sha dsha c t script idx ht
-  = Ret (be_decode (core_digest dsha (core_signature_hash_legacy script (to_core t) idx ht))).
+  = Ret (be_decode (core_digest dsha (core_signature_hash_old script (to_core t) idx ht))).
 Proof.
-  intros Hc Hdec. assert (E : signature_hash sha dsha c t script idx ht = signature_hash sha dsha BTC t script idx ht)
+  intros Hc. assert (E : signature_hash sha dsha c t script idx ht = signature_hash sha dsha BTC t script idx ht)
     by (destruct Hc as [-> | ->]; reflexivity).
   rewrite E. unfold signature_hash. rewrite legacy_presig_eq by assumption. cbn [bind].
-  destruct (core_signature_hash_legacy script (to_core t) idx ht); cbn [presig_of_core core_digest].
+  destruct (core_signature_hash_old script (to_core t) idx ht); cbn [presig_of_core core_digest].
   - now rewrite (proj1 one_is_2_248).
   - reflexivity.
 Qed.
 
-Lemma legacy_digest_grs : core_decodable script = true ->
+Lemma legacy_digest_grs :
   signature_hash sha dsha GRS t script idx ht
-  = Ret (be_decode (core_digest sha (core_signature_hash_legacy script (to_core t) idx ht))).
+  = Ret (be_decode (core_digest sha (core_signature_hash_old script (to_core t) idx ht))).
 Proof.
-  intros Hdec. unfold signature_hash. rewrite legacy_presig_eq by assumption. cbn [bind].
-  destruct (core_signature_hash_legacy script (to_core t) idx ht); cbn [presig_of_core core_digest].
+  unfold signature_hash. rewrite legacy_presig_eq by assumption. cbn [bind].
+  destruct (core_signature_hash_old script (to_core t) idx ht); cbn [presig_of_core core_digest].
   - now rewrite (proj1 one_is_2_248).
   - reflexivity.
 Qed.
@@ -1089,7 +1007,7 @@ Proof.
 Qed.
 
 (* ================================================================================================
-   Part 11 — several signatures (CHECKMULTISIG): FindAndDelete keeps a script decodable *)
+   Part 11 — several signatures (CHECKMULTISIG); FindAndDelete keeps a script decodable *)
 Lemma instr_complete s o len : core_get_op s = GOk o len -> core_get_op (firstn len s) = GOk o len.
 Proof.
   unfold core_get_op. destruct s as [|b r]; [discriminate|].
@@ -1163,30 +1081,25 @@ Proof.
   now apply fad_preserves_decodable.
 Qed.
 
-Lemma delete_signatures_decodable sigs : forall script,
+Lemma delete_signatures_eq sigs : forall script,
   Forall (fun sg => N.of_nat (length sg) < 2 ^ 32) sigs ->
-  core_decodable script = true ->
   delete_signatures script sigs = Ret (core_script_code_base script sigs).
 Proof.
-  induction sigs as [|sg sigs IH]; intros script Hall Hd; [reflexivity|].
+  induction sigs as [|sg sigs IH]; intros script Hall; [reflexivity|].
   inversion Hall as [|? ? Hl Hrest]; subst.
   cbn [delete_signatures]. unfold core_script_code_base. cbn [fold_left].
-  rewrite delete_signature_decodable by assumption. cbn [bind].
-  apply IH; [exact Hrest|]. apply find_and_delete_keeps_decodable; [now apply core_push_complete|exact Hd].
+  rewrite delete_signature_eq by assumption. cbn [bind].
+  now apply IH.
 Qed.
 
 (* ================================================================================================
-   Part 12 — the unrestricted statements, and the witnesses that refute them on the current code *)
-Definition find_and_delete_statement : Prop :=
-  forall script pat, complete_instruction pat ->
-  delete_subscript script pat = Ret (core_find_and_delete pat script).
-Definition delete_signature_statement : Prop :=
-  forall script sig, N.of_nat (length sig) < 2 ^ 32 ->
-  delete_signature script sig = Ret (core_find_and_delete (core_push sig) script).
-Definition legacy_statement : Prop :=
-  forall t script idx ht,
-  tx_wf t -> (idx < length (tx_ins t))%nat -> ht < 2 ^ 32 -> N.of_nat (length script) < 2 ^ 64 ->
-  legacy_presig t script idx ht = Ret (presig_of_core (core_signature_hash_legacy script (to_core t) idx ht)).
+   Part 12 — Core's two formulations of the legacy script-code serialization *)
+Lemma core_formulations_agree script tx nIn ht : core_decodable script = true ->
+  core_signature_hash_legacy script tx nIn ht = core_signature_hash_old script tx nIn ht.
+Proof.
+  intros Hd. unfold core_signature_hash_legacy, core_signature_hash_old.
+  now rewrite ser_script_code_decodable.
+Qed.
 
 (* CHECKSIG  <push of 5 bytes, only 1 present: 00>  CODESEPARATOR *)
 Definition witness_script : bytes := [xac; x05; x00; xab].
@@ -1207,29 +1120,14 @@ Proof.
   - reflexivity.
 Qed.
 
-Lemma find_and_delete_refuted : ~ find_and_delete_statement.
-Proof.
-  intros H. specialize (H witness_script [xab] codesep_complete). vm_compute in H. discriminate.
-Qed.
+(* on a script with an undecodable instruction the two formulations of Core differ from each other *)
+Lemma core_formulations_differ_on_undecodable :
+  core_decodable witness_script = false
+  /\ core_signature_hash_legacy witness_script (to_core witness_tx) 0 1
+     <> core_signature_hash_old witness_script (to_core witness_tx) 0 1.
+Proof. split; [reflexivity|]. vm_compute. discriminate. Qed.
 
-(* <truncated 5-byte push: 00> <push of the signature 30 01>: pycoin walks on and removes the signature push *)
-Lemma delete_signature_refuted : ~ delete_signature_statement.
-Proof.
-  intros H. specialize (H [x05; x00; x02; x30; x01] [x30; x01]).
-  assert (A : N.of_nat (length [x30; x01]) < 2 ^ 32) by reflexivity.
-  specialize (H A). vm_compute in H. discriminate.
-Qed.
-
-Lemma legacy_refuted : ~ legacy_statement.
-Proof.
-  intros H. specialize (H witness_tx witness_script 0%nat 1 witness_tx_wf).
-  assert (A : (0 < length (tx_ins witness_tx))%nat) by (cbn; lia).
-  assert (B : 1 < 2 ^ 32) by (vm_compute; reflexivity).
-  assert (C : N.of_nat (length witness_script) < 2 ^ 64) by (vm_compute; reflexivity).
-  specialize (H A B C). vm_compute in H. discriminate.
-Qed.
-
-(* non-vacuity of the restricted theorems: a decodable script with two separators and an embedded signature push *)
+(* non-vacuity: a decodable script with two separators and an embedded signature push *)
 Definition example_script : bytes := [xab; x02; x30; x01; xac; xab; x51].
 Lemma example_decodable : core_decodable example_script = true.
 Proof. vm_compute. reflexivity. Qed.
@@ -1239,11 +1137,25 @@ Proof. vm_compute. reflexivity. Qed.
 Lemma delete_subscript_total script sub : exists r, delete_subscript script sub = Ret r.
 Proof. eexists. apply delete_subscript_dws. Qed.
 
+Lemma find_and_delete_q pat script : complete_instruction pat ->
+  delete_subscript script pat = Ret (core_find_and_delete pat script).
+Proof. intros. now apply find_and_delete_eq. Qed.
+
+Lemma signature_pattern_q sig : N.of_nat (length sig) < 2 ^ 32 ->
+  plain_push sig = Ret (core_push sig) /\ complete_instruction (core_push sig).
+Proof. intros H. split; [now apply plain_push_core_push | now apply core_push_complete]. Qed.
+
+Lemma legacy_streaming_q t script idx ht :
+  tx_wf t -> (idx < length (tx_ins t))%nat -> ht < 2 ^ 32 -> N.of_nat (length script) < 2 ^ 64 ->
+  core_decodable script = true ->
+  legacy_presig t script idx ht = Ret (presig_of_core (core_signature_hash_legacy script (to_core t) idx ht)).
+Proof. intros. rewrite core_formulations_agree by assumption. now apply legacy_presig_eq. Qed.
+
 Lemma legacy_digest_btc_ltc (sha256 dsha256 : bytes -> bytes) t script idx ht c :
   tx_wf t -> (idx < length (tx_ins t))%nat -> ht < 2 ^ 32 -> N.of_nat (length script) < 2 ^ 64 ->
-  c = BTC \/ c = LTC -> core_decodable script = true ->
+  c = BTC \/ c = LTC ->
   signature_hash sha256 dsha256 c t script idx ht
-  = Ret (be_decode (core_digest dsha256 (core_signature_hash_legacy script (to_core t) idx ht))).
+  = Ret (be_decode (core_digest dsha256 (core_signature_hash_old script (to_core t) idx ht))).
 Proof. intros. now apply legacy_digest_btc. Qed.
 
 Lemma bip143_preimage_btc (sha256 dsha256 : bytes -> bytes) t script idx ht u :
@@ -1261,6 +1173,13 @@ Lemma bip143_digest_btc_ltc_bch (sha256 dsha256 : bytes -> bytes) t script idx h
   = Ret (be_decode (dsha256 (bip143_preimage dsha256 script (to_core t) idx (to_value u) ht))).
 Proof. intros. now apply segwit_digest_btc. Qed.
 
+Lemma forkid_bch_q (sha256 dsha256 : bytes -> bytes) t script idx ht u :
+  tx_wf t -> (idx < length (tx_ins t))%nat -> ht < 2 ^ 32 -> N.of_nat (length script) < 2 ^ 64 ->
+  nth_error (tx_unspents t) idx = Some (Some u) -> to_value u < 2 ^ 64 ->
+  signature_hash sha256 dsha256 BCH t script idx ht
+  = forkid_result dsha256 (forkid_preimage dsha256 FORKID_BCH script (to_core t) idx (to_value u) ht).
+Proof. intros. now apply forkid_bch. Qed.
+
 Lemma forkid_btg_both (sha256 dsha256 : bytes -> bytes) t script idx ht u :
   tx_wf t -> (idx < length (tx_ins t))%nat -> ht < 2 ^ 32 -> N.of_nat (length script) < 2 ^ 64 ->
   nth_error (tx_unspents t) idx = Some (Some u) -> to_value u < 2 ^ 64 ->
@@ -1272,20 +1191,8 @@ Proof. intros. split; [now apply forkid_btg_legacy | now apply forkid_btg_segwit
 Lemma grs_single_sha (sha256 dsha256 : bytes -> bytes) t script idx ht u :
   tx_wf t -> (idx < length (tx_ins t))%nat -> ht < 2 ^ 32 -> N.of_nat (length script) < 2 ^ 64 ->
   nth_error (tx_unspents t) idx = Some (Some u) -> to_value u < 2 ^ 64 ->
-  (core_decodable script = true ->
-   signature_hash sha256 dsha256 GRS t script idx ht
-   = Ret (be_decode (core_digest sha256 (core_signature_hash_legacy script (to_core t) idx ht))))
+  signature_hash sha256 dsha256 GRS t script idx ht
+  = Ret (be_decode (core_digest sha256 (core_signature_hash_old script (to_core t) idx ht)))
   /\ signature_for_hash_type_segwit sha256 dsha256 GRS t script idx ht
      = Ret (be_decode (sha256 (bip143_preimage sha256 script (to_core t) idx (to_value u) ht))).
-Proof. intros. split; [intros; now apply legacy_digest_grs | now apply segwit_digest_grs]. Qed.
-
-Lemma forkid_bch_q (sha256 dsha256 : bytes -> bytes) t script idx ht u :
-  tx_wf t -> (idx < length (tx_ins t))%nat -> ht < 2 ^ 32 -> N.of_nat (length script) < 2 ^ 64 ->
-  nth_error (tx_unspents t) idx = Some (Some u) -> to_value u < 2 ^ 64 ->
-  signature_hash sha256 dsha256 BCH t script idx ht
-  = forkid_result dsha256 (forkid_preimage dsha256 FORKID_BCH script (to_core t) idx (to_value u) ht).
-Proof. intros. now apply forkid_bch. Qed.
-
-Lemma signature_pattern_q sig : N.of_nat (length sig) < 2 ^ 32 ->
-  plain_push sig = Ret (core_push sig) /\ complete_instruction (core_push sig).
-Proof. intros H. split; [now apply plain_push_core_push | now apply core_push_complete]. Qed.
+Proof. intros. split; [now apply legacy_digest_grs | now apply segwit_digest_grs]. Qed.
